@@ -250,7 +250,13 @@ impl G {
             "array" => {
                 let e = ty["e"].clone();
                 if d == 0 { return self.inhabitant(ty, true); }
-                match self.rng.below(7) {
+                match self.rng.below(8) {
+                    7 if e["k"] == "multi" => {
+                        // a concatenation whose left run-time tag is narrower than the right one (and vice versa)
+                        let narrow = hide(tarr(tint()), arr(vec![int(1)]));
+                        let wide = hide(ty.clone(), arr(vec![int(2), flt(5)]));
+                        if self.rng.chance(1, 2) { bin("+", narrow, wide) } else { bin("+", wide, narrow) }
+                    }
                     0 => bin("+", self.expr_of(ty, d - 1), self.expr_of(ty, d - 1)),
                     1 => json!({"k": "slice", "e": self.expr_of(ty, d - 1), "a": self.opt_int(), "b": self.opt_int(), "c": self.opt_step()}),
                     2 => json!({"k": "rep", "v": self.expr_of(&e, d - 1), "len": int([0, 1, 2, 3][self.rng.below(4)])}),
@@ -504,6 +510,65 @@ impl G {
         }
     }
 
+    /// Programs the documentation's rules refuse (negative cases): if an implementation accepts one, the run is
+    /// judged by its events and must not panic. Each returns a complete small program.
+    pub fn negative_program(&mut self) -> Vec<Value> {
+        let u = tmulti(vec![tint(), tstr()]);
+        let brk = json!({"k": "break"});
+        let cont = json!({"k": "continue"});
+        let arg_s = string("s");
+        let calls = |name: &str| vec![set("r1", call(var(name), vec![arg_s.clone()])), set("r2", call(var(name), vec![int(1)])), tup(vec![var("r1"), var("r2")])];
+        match self.rng.below(12) {
+            // a function that can fall off its end: the exit is hidden in a type-test branch / match arm / nested block
+            0..=3 => {
+                let exit = if self.rng.chance(1, 3) { cont.clone() } else { brk.clone() };
+                let breaker = match self.rng.below(4) {
+                    0 => json!({"k": "ifset", "n": "x", "ty": tstr(), "e": var("v"), "t": block(vec![brk.clone()]), "f": none()}),
+                    1 => json!({"k": "match", "e": var("v"), "arms": [{"k": "ty", "n": "x", "ty": tstr(), "b": block(vec![brk.clone()])}, {"k": "other", "b": block(vec![mark(1)])}]}),
+                    2 => block(vec![json!({"k": "ifset", "n": "x", "ty": tstr(), "e": var("v"), "t": block(vec![block(vec![brk.clone()])]), "f": none()})]),
+                    _ => json!({"k": "if", "c": bin("==", var("v"), string("s")), "t": block(vec![brk.clone()]), "f": none()}),
+                };
+                let tail = if exit == cont { vec![mark(2), json!({"k": "ifset", "n": "y", "ty": tint(), "e": var("v"), "t": block(vec![ret(int(1))]), "f": none()}), mark(3), brk.clone()] } else { vec![ret(int(1))] };
+                let mut body = vec![breaker];
+                body.extend(tail);
+                let mut prog = vec![json!({"k": "fndecl", "n": "f", "ps": [p("v", u.clone())], "r": tint(), "body": [json!({"k": "loop", "b": block(body)})]})];
+                prog.extend(calls("f"));
+                prog
+            }
+            // break / continue in a function literal written inside a loop body
+            4 | 5 => {
+                let exit = if self.rng.chance(1, 2) { brk } else { cont };
+                let inner = if self.rng.chance(1, 2) { vec![exit] } else { vec![json!({"k": "if", "c": boolean(true), "t": block(vec![exit]), "f": none()})] };
+                vec![set("k", json!({"k": "mut", "ty": tint(), "e": int(0)})),
+                     json!({"k": "while", "c": bin("<", json!({"k": "deref", "e": var("k")}), int(2)), "b": block(vec![
+                         json!({"k": "asg", "op": "+=", "l": var("k"), "r": int(1)}),
+                         set("g", json!({"k": "fn", "ps": [], "r": tvoid(), "body": inner})),
+                         call(var("g"), vec![])])}),
+                     json!({"k": "deref", "e": var("k")})]
+            }
+            // a match that does not cover its scrutinee
+            6 => {
+                let mut prog = vec![json!({"k": "fndecl", "n": "f", "ps": [p("v", u.clone())], "r": tint(), "body": [
+                    ret(json!({"k": "match", "e": var("v"), "arms": [{"k": "ty", "n": "x", "ty": tint(), "b": block(vec![int(1)])}, {"k": "val", "vs": [string("t")], "b": block(vec![int(2)])}]}))]})];
+                prog.extend(calls("f"));
+                prog
+            }
+            // returning / passing a value of the wrong type, wrong arity
+            7 => {
+                let mut prog = vec![json!({"k": "fndecl", "n": "f", "ps": [p("v", u.clone())], "r": tint(), "body": [ret(var("v"))]})];
+                prog.extend(calls("f"));
+                prog
+            }
+            8 => vec![json!({"k": "fndecl", "n": "f", "ps": [p("v", tint())], "r": tint(), "body": [ret(bin("+", var("v"), int(1)))]}),
+                      set("r1", call(var("f"), vec![hide(u.clone(), string("s"))])), var("r1")],
+            9 => vec![json!({"k": "fndecl", "n": "f", "ps": [p("v", tint())], "r": tint(), "body": [ret(var("v"))]}),
+                      set("r1", call(var("f"), vec![int(1), int(2)])), var("r1")],
+            // destructuring a tuple of another length; indexing with a non-int
+            10 => vec![json!({"k": "destruct", "ns": ["a", "b"], "e": hide(ttup(vec![tint(), tint(), tint()]), tup(vec![int(1), int(2), int(3)]))}), bin("+", var("a"), var("b"))],
+            _ => vec![set("a", hide(tarr(tint()), arr(vec![int(1), int(2)]))), json!({"k": "at", "e": var("a"), "i": hide(tmulti(vec![tint(), tfloat()]), int(1))})],
+        }
+    }
+
     pub fn program(&mut self, size: usize) -> Vec<Value> {
         self.used_near_miss = false;
         self.env.clear();
@@ -544,8 +609,9 @@ pub fn run(args: &[String]) -> Value {
         // every 5th program is a near-miss: one sub-expression gets a close but non-matching type; the checker is
         // expected to refuse it, and if it does not, the run is judged by its events (negative case)
         g.near_miss = if i % 5 == 4 { 1 } else { 0 };
-        let prog = g.program(size);
-        let negative = g.used_near_miss;
+        let structured = i % 10 == 9;
+        let prog = if structured { g.negative_program() } else { g.program(size) };
+        let negative = structured || g.used_near_miss;
         writeln!(w, "{}", json!({"id": format!("gen-{i}"), "suite": "gen", "prog": prog, "negative": negative})).unwrap();
     }
     json!({"generated": n})
